@@ -893,7 +893,7 @@ func (g *GeneratedColumnExpr) SQL() string {
 }
 
 func (i *IdentityColumn) SQL() string {
-	return "GENERATED BY DEFAULT AS IDENTITY" + strOpt(len(i.Params) > 0, " ("+sqlJoin(i.Params, " ")+")")
+	return "GENERATED BY DEFAULT AS IDENTITY" + strOpt(!i.Rparen.Invalid(), " ("+sqlJoin(i.Params, " ")+")")
 }
 
 func (a *AutoIncrement) SQL() string {
